@@ -216,6 +216,68 @@ class Conn(object):
         return None
 
 
+_PROBE = {}
+
+
+def transport_closes_replaced_connection():
+    """Behavioural probe of the real TCPTransport of the tree under test (on simulated sockets): when a
+    second incoming connection identifies itself as a node that already has one, is the first one
+    closed?  The message-level model of E1 follows the answer, so that it never is kinder (nor harsher)
+    than the transport it stands for."""
+    if 'closes' in _PROBE:
+        return _PROBE['closes']
+    try:
+        from . import socksim
+        import pysyncobj.transport as T
+        import pysyncobj.tcp_connection as TC
+        import pysyncobj.tcp_server as TS
+        saved = (TC.socket, TS.socket, S.createPoller, socksim.NET)
+        socksim.reset_net()
+        socksim.install()
+        net = socksim.NET
+        net.current = 'A'
+
+        class _Conf(object):
+            bindAddress = None
+            sendBufferSize = recvBufferSize = 65536
+            connectionTimeout = 3.5
+            connectionRetryTime = 5.0
+            tcp_keepalive = None
+            bindRetryTime = 1.0
+            maxBindRetries = 0
+
+        class _Stub(object):
+            conf = _Conf()
+            encryptor = None
+
+            def __init__(self):
+                self._poller = socksim.SimPoller()
+
+            def addOnTickCallback(self, cb):
+                pass
+
+        stub = _Stub()
+        t = T.TCPTransport(stub, TCPNode('10.9.9.1:1'), [TCPNode('10.9.9.2:1')])
+        conns = []
+        for _ in range(2):
+            net.current = 'A'
+            sa = socksim.FakeSocket()
+            net.current = 'B'
+            sb = socksim.FakeSocket()
+            socksim.pair(sa, sb)
+            net.current = 'A'
+            c = TC.TcpConnection(poller=stub._poller, socket=sa, timeout=3.5)
+            t._onNewIncomingConnection(c)
+            t._onIncomingMessageReceived(c, '10.9.9.2:1')
+            conns.append(c)
+        closes = conns[0].state == TC.CONNECTION_STATE.DISCONNECTED
+        TC.socket, TS.socket, S.createPoller, socksim.NET = saved
+        _PROBE['closes'] = closes
+    except Exception:
+        _PROBE['closes'] = True
+    return _PROBE['closes']
+
+
 class SimTransport(Transport):
     """Mirrors the observable rules of TCPTransport (who dials, when each side
     reports connected, replacement of stale accepted connections)."""
@@ -481,6 +543,7 @@ class Sim(object):
         self.rng = random.Random(seed * 1000003 + 17)
         random.seed(seed * 7919 + 1)
         CLK.reset()
+        CLK.eps = cfg.get('clock_eps', 2e-5)
         del RAISED[:]
         SIM = self
         self.step = 0
@@ -495,6 +558,8 @@ class Sim(object):
         self.stats = collections.Counter()
         self.escaped = collections.Counter()
         self.violations = []
+        self.stop_props = cfg.get('stop_props')        # None: every violation ends the run
+        self.other_violations = {}
         self.tmpdir = None
         self.inconclusive = None
         self.phase = 'fault'
@@ -728,7 +793,7 @@ class Sim(object):
                     self.stats['stale_replaced'] += 1
                     # TCPTransport closes the connection that is being replaced (silently: it is
                     # no longer registered when its disconnect callback runs)
-                    if old.open[1] and old.ends[1] is rcv:
+                    if old.open[1] and old.ends[1] is rcv and transport_closes_replaced_connection():
                         old.open[1] = False
                         old.q[0].clear()
                         if not old.open[0]:
@@ -1035,6 +1100,17 @@ class Sim(object):
         rng = self.rng
         if self.forced:
             return self.forced.popleft()
+        lc = self.mon.last_snapshot_conn
+        if lc is not None:
+            self.mon.last_snapshot_conn = None
+            c = self.conns.get(lc)
+            if c is not None and self.cfg.get('flapxfer') and rng.random() < self.cfg['flapxfer'] and c.open[0] and c.open[1]:
+                # break the connection in the middle of a snapshot transfer and re-establish it at once
+                first = rng.choice([0, 1])
+                self.forced.append(('X', c.cid, 1 - first))
+                self.forced.append(('C', c.ends[0].key, c.ends[1].key))
+                self.mon.sit['snapshot_transfer_restarted'] += 1
+                return ('X', c.cid, first)
         lv = self.mon.last_voter
         if lv is not None:
             self.mon.last_voter = None
@@ -1204,6 +1280,30 @@ class Sim(object):
         if RAISED:
             raise RAISED[0]
         self.mon.after_step(touched, a)
+        if a[0] == 'T' and self.cfg.get('flapxfer') and self.phase == 'fault' and touched is not None and not self.forced:
+            self.maybe_flap_transfer(touched)
+
+    def maybe_flap_transfer(self, p):
+        """Bias for C09: a snapshot transfer that spans several leader ticks is cut in the middle -
+        part of what is queued gets delivered, then both ends notice the drop and the pair reconnects
+        at once (before the leader's next tick)."""
+        ser = p.serializer
+        tr = getattr(ser, '_Serializer__transmissions', None) if ser is not None else None
+        if not tr or self.rng.random() >= self.cfg['flapxfer']:
+            return
+        node = sorted(tr.keys(), key=lambda n: n.id)[0]
+        c = p.transport.conns.get(node.id)
+        if c is None or not (c.open[0] and c.open[1]):
+            return
+        side = c.side_of(p)
+        k = self.rng.randrange(0, len(c.q[side]) + 1)
+        for _ in range(k):
+            self.forced.append(('D', c.cid, side))
+        first = self.rng.choice([0, 1])
+        self.forced.append(('X', c.cid, first))
+        self.forced.append(('X', c.cid, 1 - first))
+        self.forced.append(('C', c.ends[0].key, c.ends[1].key))
+        self.mon.sit['snapshot_transfer_cut_midway'] += 1
 
     # -- fair regime -----------------------------------------------------------------
     def fair_round(self, dt=0.02):
